@@ -286,6 +286,28 @@ let handle_smtp (kind : string) (ins : string list) (outs : string list) : bool 
   | [naming; maxr; maxb; da; acc; rej; ds; sto; dis; rejo; _store; streams; _script; ml; rl; msl] ->
       go naming maxr maxb da acc rej ds sto dis rejo (String.split_on_char '+' streams)
         (parse_smtp_rules ml, parse_smtp_rules rl, parse_msg_rules msl)
+  | [naming; maxr; maxb; da; acc; rej; ds; sto; dis; rejo; _store; streams; _script; ml; rl; msl; ml2; rl2; msl2] ->
+      (* as below, plus a second listener on before.message_stored: for the subjects of its table it answers with the
+         message as handed to it, redirected to one mailbox; it is consulted only where the Lua handler did not answer *)
+      let combine (first : (str * hook_ans) list) (second : (str * hook_ans) list) : (str * hook_ans) list =
+        let keys = List.sort_uniq compare (List.map fst first @ List.map fst second) in
+        let listener (t : (str * hook_ans) list) (a : str) : hook_ans option =
+          match List.assoc_opt a t with Some NoAns | None -> None | Some h -> Some h in
+        List.map (fun a ->
+          (a, match broker_emit [listener first; listener second] a with Some h -> h | None -> NoAns)) keys in
+      let second_msg : (str * overrides) list =
+        if msl2 = "-" then [] else
+        List.map (fun e ->
+          let i = String.index e '=' in
+          let k = str_of_field (String.sub e 0 i) and mb = str_of_field (String.sub e (i + 2) (String.length e - i - 2)) in
+          (k, { ov_mailboxes = Some [mb]; ov_from = None; ov_to = None; ov_subject = None })) (split ',' msl2) in
+      let first_msg = parse_msg_rules msl in
+      let msg_keys = List.sort_uniq compare (List.map fst first_msg @ List.map fst second_msg) in
+      let msg_rules = List.concat (List.map (fun k ->
+        match broker_emit [(fun k -> List.assoc_opt k first_msg); (fun k -> List.assoc_opt k second_msg)] k with
+        | Some ov -> [(k, ov)] | None -> []) msg_keys) in
+      go naming maxr maxb da acc rej ds sto dis rejo (String.split_on_char '+' streams)
+        (combine (parse_smtp_rules ml) (parse_smtp_rules ml2), combine (parse_smtp_rules rl) (parse_smtp_rules rl2), msg_rules)
   | [naming; maxr; maxb; da; acc; rej; ds; sto; dis; rejo; _store; streams; _script; ml; rl; msl; ml2; rl2] ->
       (* two listeners on each SMTP broker, the Lua host first: the answer is EventBroker.Emit's
          (model: Hooks.emit) - the first listener that answers; NoAns = nil result *)
